@@ -27,6 +27,17 @@ func genC20(rng *rand.Rand, n int, emit func(Case), dist map[string]int) {
 			k = 2 + rng.Intn(3)
 		}
 		seen := map[string]bool{}
+		structural := rng.Intn(3) == 0
+		if structural {
+			// structural tables: overlapping parameter / wildcard routes for different methods, node splits in any order
+			for _, r := range rGenTemplate(rng) {
+				if r.method != rNF {
+					rs = append(rs, r)
+				}
+			}
+			k = len(rs)
+			dist["structural_tables"]++
+		}
 		for len(rs) < k {
 			r := rRoute{[]string{"GET", "POST"}[rng.Intn(2)], pats[rng.Intn(len(pats))]}
 			if rng.Intn(6) == 0 {
@@ -85,6 +96,10 @@ func genC20(rng *rand.Rand, n int, emit func(Case), dist map[string]int) {
 		var args []interface{}
 		for _, kd := range kinds {
 			v := vals[rng.Intn(len(vals))]
+			if structural && rng.Intn(2) == 0 {
+				// values that spell the literal text of sibling routes: the request walks into their branches first
+				v = []string{"users", "ab", "a", "b", "v1", "us", "abc", "profile", "x"}[rng.Intn(9)]
+			}
 			if kd == '*' {
 				v = anyVals[rng.Intn(len(anyVals))]
 			}
